@@ -300,7 +300,7 @@ func repeatMenu() []slot {
 type state [nSlots]uint8
 
 func (st state) spec(m []slot, s wk.IDScheme) wk.Spec {
-	var out wk.Spec
+	out := make(wk.Spec, 0, nSlots+5)
 	for i, sl := range m {
 		if f := sl.vs[st[i]].f(s); f != nil {
 			out = append(out, *f)
@@ -743,12 +743,21 @@ func runHistories(r *kit.Result, c *histCfg, start state) {
 		anyCycle bool
 	}
 	expectCache := map[state]wk.Dump{}
+	specCache := map[state]wk.Spec{} // read-only once built
+	specOf := func(st state) wk.Spec {
+		sp, ok := specCache[st]
+		if !ok {
+			sp = st.spec(c.m, c.sch)
+			specCache[st] = sp
+		}
+		return sp
+	}
 	cycCache := map[state]bool{}
 	isCyclic := func(st state) bool {
 		if v, ok := cycCache[st]; ok {
 			return v
 		}
-		v := cyclic(st.spec(c.m, c.sch))
+		v := cyclic(specOf(st))
 		cycCache[st] = v
 		return v
 	}
@@ -757,17 +766,36 @@ func runHistories(r *kit.Result, c *histCfg, start state) {
 		if v, ok := validCache[st]; ok {
 			return v
 		}
-		v := allValid(st.spec(c.m, c.sch))
+		v := allValid(specOf(st))
 		validCache[st] = v
 		return v
 	}
 	expect := func(st state) wk.Dump {
 		want, ok := expectCache[st]
 		if !ok {
-			want = closureExpect(st.spec(c.m, c.sch), ids)
+			want = closureExpect(specOf(st), ids)
 			expectCache[st] = want
 		}
 		return want
+	}
+	type repeatInfo struct {
+		repeaters map[string]bool
+		mid       int // features with a mid-sequence repeat
+	}
+	repeatCache := map[state]repeatInfo{}
+	repeatsOf := func(st state) repeatInfo {
+		ri, ok := repeatCache[st]
+		if !ok {
+			sp := specOf(st)
+			ri.repeaters = repeatersOf(c.m, sp)
+			for i := range sp {
+				if midRepeat(&sp[i]) {
+					ri.mid++
+				}
+			}
+			repeatCache[st] = ri
+		}
+		return ri
 	}
 	check := func(n node) {
 		// fresh world, replay
@@ -782,7 +810,7 @@ func runHistories(r *kit.Result, c *histCfg, start state) {
 			for _, o := range n.hist {
 				hs = append(hs, o.String(c.m))
 			}
-			return fmt.Sprintf("%s world, scheme %s, start {%s}, history: %s\nmodel state: %s", c.kind, c.sch.Name, start.String(c.m), strings.Join(hs, " ; "), n.st.spec(c.m, c.sch))
+			return fmt.Sprintf("%s world, scheme %s, start {%s}, history: %s\nmodel state: %s", c.kind, c.sch.Name, start.String(c.m), strings.Join(hs, " ; "), specOf(n.st))
 		}
 		switch c.kind {
 		case kindMutable:
@@ -815,7 +843,7 @@ func runHistories(r *kit.Result, c *histCfg, start state) {
 				tagEdits++
 				continue
 			}
-			curSpec := cur.spec(c.m, c.sch)
+			curSpec := specOf(cur)
 			nf := c.m[o.slot].vs[o.v].f(c.sch)
 			old := curSpec.Find(nf.ID)
 			if dropsReference(old, nf) {
@@ -844,7 +872,11 @@ func runHistories(r *kit.Result, c *histCfg, start state) {
 		got := observe(w, ids)
 		r.Evals++
 		r.Transitions += int64(len(n.hist))
-		good := compare(r, c.kind, got, want, former, droppedBase, n.anyCycle, repeatersOf(c.m, n.st.spec(c.m, c.sch)), describe)
+		var ri repeatInfo
+		if repeatMenu {
+			ri = repeatsOf(n.st)
+		}
+		good := compare(r, c.kind, got, want, former, droppedBase, n.anyCycle, ri.repeaters, describe)
 		mr := 0
 		for _, v := range want {
 			if v != "" {
@@ -868,13 +900,7 @@ func runHistories(r *kit.Result, c *histCfg, start state) {
 			r.Count(c.kind+":histories-visiting-a-cyclic-state", 1)
 		}
 		if repeatMenu {
-			fin := n.st.spec(c.m, c.sch)
-			mid := 0
-			for i := range fin {
-				if midRepeat(&fin[i]) {
-					mid++
-				}
-			}
+			mid := ri.mid
 			switch {
 			case mid > 1:
 				tag = "repeat-menu:" + tag + "+several-mid-repeats"
@@ -1348,13 +1374,22 @@ func build(tier string) (kit.Space, string) {
 		smallOps := append(ops(rm, rsmall, allSlots), tagOps()...)
 		fullOps := append(ops(rm, rfull, allSlots), tagOps()...)
 		if !thorough {
+			// depth 2 from the start states with at most quickReferrers referrers, depth 1 from the others
+			const quickReferrers = 3
+			n2 := 0
 			for _, kind := range []string{kindMutable, kindOverlay} {
-				hc := &histCfg{m: rm, sch: sch, kind: kind, depth: 2, ops: smallOps}
+				hc2 := &histCfg{m: rm, sch: sch, kind: kind, depth: 2, ops: smallOps}
+				hc1 := &histCfg{m: rm, sch: sch, kind: kind, depth: 1, ops: smallOps}
 				for _, st := range startsS {
-					cases = append(cases, caseDef{what: cHist, st: st, hc: hc, m: rm})
+					if featureCount(rm, st) <= 1+quickReferrers {
+						cases = append(cases, caseDef{what: cHist, st: st, hc: hc2, m: rm})
+						n2++
+					} else {
+						cases = append(cases, caseDef{what: cHist, st: st, hc: hc1, m: rm})
+					}
 				}
 			}
-			bound = append(bound, fmt.Sprintf("repeated-reference family, small menu: %d start states x 2 kinds x every sequence of <= 2 of %d operations (AddFeature + 12 tag edits)", len(startsS), len(smallOps)))
+			bound = append(bound, fmt.Sprintf("repeated-reference family, small menu: %d start states x 2 kinds x every sequence of %d operations (AddFeature + 12 tag edits) of length <= 2 from the %d start states with at most %d referrers and <= 1 from the other %d", len(startsS), len(smallOps), n2/2, quickReferrers, len(startsS)-n2/2))
 		} else {
 			for _, kind := range []string{kindMutable, kindOverlay} {
 				hc := &histCfg{m: rm, sch: sch, kind: kind, depth: 2, ops: fullOps}
@@ -1428,7 +1463,7 @@ func main() {
 		},
 		CaseTimeout:      60e9, // cases take well under a second of CPU; the shared machine is heavily loaded
 		WorkerEnv:        []string{"GOMAXPROCS=2", "GOGC=400"},
-		QuickDeadline:    420e9,
+		QuickDeadline:    900e9, // the shared machine runs at a load of 100+; about 3 minutes of CPU when it is quiet
 		ThoroughDeadline: 25 * 60e9,
 		Chunk:            4,
 		Build:            build,
